@@ -529,7 +529,7 @@ def generate(rng, tier, mult):
         out.append({"kind": "events", "req": gen_small_req(rng, max_funcs=3, max_size=3), "old": False, "tag": "events"})
     for _ in range(max(2, n_ev // 5)):
         out.append({"kind": "events", "req": gen_small_req(rng, max_funcs=3, max_size=3), "old": True, "tag": "events-old"})
-    n_pipes = (4 if tier == "quick" else 40) * mult
+    n_pipes = (6 if tier == "quick" else 40) * mult
     for q in range(n_pipes):
         st = ["file_array", "dict"][q % 2]
         out += crash_cases(rng, gen_small_req(rng, storage=st), False, every=True, max_pairs=6 if tier == "quick" else 25)
